@@ -144,7 +144,7 @@ func (m *svMod) expiring(e *lib.Env) []string {
 			k.IterateActiveRequests(e.Ctx, id, rc.BatchCounter, func(rid tmbytes.HexBytes, r servicetypes.Request) {
 				prov, _ := sdk.AccAddressFromBech32(r.Provider)
 				b, _ := k.GetServiceBinding(e.Ctx, r.ServiceName, prov)
-				ds = append(ds, lib.ZI(b.Deposit.AmountOf(k.BaseDenom(e.Ctx))))
+				ds = append(ds, lib.Pair(lib.Z(int64(deputyIdx(r.Provider))), lib.ZI(b.Deposit.AmountOf(k.BaseDenom(e.Ctx)))))
 			})
 		}
 	})
@@ -326,7 +326,39 @@ func svSweep() []func(*SVParams) {
 	return fs
 }
 
+// Boundary x repetition: every fraction parameter at exactly its valid extremes, followed by a scenario that
+// consumes the affected path SEVERAL times on the same object (four requests to one binding of which three time
+// out, two of them in the same end blocker; the blocks run past every expiry).
+func svBoundary() []func(*SVParams) {
+	one := p18.String()
+	almost := new(big.Int).Sub(p18, big.NewInt(1)).String()
+	return []func(*SVParams){
+		func(p *SVParams) { p.Slash = sp(one) },
+		func(p *SVParams) { p.Slash = sp("0") },
+		func(p *SVParams) { p.Tax = sp("0") },
+		func(p *SVParams) { p.Tax = sp(almost) },
+		func(p *SVParams) { p.Slash = sp(one); p.Tax = sp(almost); p.MinDep = nil },
+		func(p *SVParams) { p.Slash = sp(one); p.Mult = 1 },
+	}
+}
+
 func genSV(r *lib.Rand, h *History, i int) {
+	if j := i - len(svSweep()); j >= 0 && j < len(svBoundary()) {
+		p := SVParams{MaxTO: 100, Mult: 1000, MinDep: []Coin{{1, sp("5000")}}, Tax: sp("50000000000000000"), Slash: sp("1000000000000000"),
+			Complaint: int64(15 * 24 * time.Hour), Arbitr: int64(5 * 24 * time.Hour), TxSize: 4000, Base: 1, Restricted: false}
+		svBoundary()[j](&p)
+		h.SV = &p
+		h.Via = sweepVia(j)
+		price := r.Range(1, 50)
+		h.Steps = []Step{{"bind", []string{"0", fmt.Sprint(price), fmt.Sprint(price*1000 + 5000), "1"}},
+			{"call", []string{"1", "100", "2"}}, {"call", []string{"1", "100", "2"}}, {"call", []string{"1", "100", "3"}}, {"call", []string{"1", "100", "3"}},
+			{"block", []string{"1"}}, {"respond", nil}, {"block", []string{"6"}}, // three requests time out, two of them in one end blocker
+			{"call", []string{"1", "100", "2"}}, {"withdraw", []string{"0"}},
+			{"bind", []string{"1", fmt.Sprint(price), fmt.Sprint(price*1000 + 5000), "1"}},
+			{"call", []string{"3", "100", "2", "2", "3"}}, {"call", []string{"2", "100", "1"}}, {"block", []string{"2"}}, {"respond", nil}, {"respond", nil},
+			{"block", []string{"12"}}}
+		return
+	}
 	sweep := -1
 	if i < len(svSweep()) {
 		sweep = i
